@@ -1,6 +1,12 @@
 import Pyx12Verif.Props.C18
+import Pyx12Verif.Props.C18Doc
 open Pyx12Verif.Globals
 #print axioms inv_preserved
 #print axioms run_state
 #print axioms run_independent_of_history
 #print axioms history_independent
+#print axioms Pyx12Verif.Doc.session_nth
+#print axioms Pyx12Verif.Doc.session_history_independent
+#print axioms Pyx12Verif.Doc.session_repeat
+#print axioms Pyx12Verif.Doc.session_order_independent
+#print axioms Pyx12Verif.Doc.ctxSession_history_independent
